@@ -592,6 +592,14 @@ class Repo:
     # ---------------------------------------------------------------- lookup
     def fn(self, qn):
         f = self.funcs.get(qn)
+        if f is None and ':' in qn and '#' not in qn:
+            # a method that is inherited (moved into a base class / mixin) is the same anchor: resolved through the MRO
+            rel, qual = qn.split(':', 1)
+            if '.' in qual:
+                cname, m = qual.rsplit('.', 1)
+                c = self.classes.get('%s:%s' % (rel, cname))
+                if c is not None:
+                    f = c.method(m)
         if f is None:
             raise AnchorMissing('function %s' % qn)
         return f
